@@ -149,19 +149,19 @@ _T = ("TLA+ specification model-checked with TLC; TLC-generated cases replayed o
 META = {
     "C01": {"text": "TLC enumerates all pairs of diagrams in the bound (composable or not), checks the gluing theorem on the reference composition (identified iff forced, edges/labels/interfaces carried), every pair is composed by the library and the result must be deep-well-formed and isomorphic (interfaces pinned) to the reference gluing; None on type mismatch; plus recorded chains of compositions from the seeded driver."},
     "C02": {"text": "Equality, field for field, of strict and lax tensor (pending unifications included) with the juxtaposition computed by the specification over all pairs in the bound; associativity and unit laws on the nose over all triples (both sides computed by the library); model invariants: the same laws on the reference operators."},
-    "C03": {"text": "All law instances in the bound (associativity, units, interchange, naturality and involutivity of the symmetry, both hexagons): both sides computed by the library, compared by the specification's isomorphism decision and with the reference expression; the laws are also model-checked on the reference operators."},
-    "C04": {"text": "Dagger equality/involution/contravariance/tensor laws over all pairs of diagrams, spider fusion over all pairs of labelled cospans in the bound (result discrete and isomorphic to the pushout spider, computed independently), exact accept/reject of spider construction on raw legs; strict and lax entry points."},
+    "C03": {"text": "All law instances in the bound (associativity, units, interchange, naturality and involutivity of the symmetry, both hexagons): both sides computed by the library, compared by the specification's isomorphism decision and with the reference expression; the laws are also model-checked on the reference operators. Associativity and interchange are also recorded around long, non-injective, interleaving gluing boundaries (glue driver)."},
+    "C04": {"text": "Dagger equality/involution/contravariance/tensor laws over all pairs of diagrams, spider fusion over all pairs of labelled cospans in the bound (result discrete and isomorphic to the pushout spider, computed independently), exact accept/reject of spider construction on raw legs; strict and lax entry points. The dagger calls recorded from the repository's own randomized test suite (recorder hook) are validated with the same exact relation."},
     "C05": {"text": "Checked constructors on raw, possibly ill-formed data (accept iff the documented condition; a rejection names a failing condition) plus the deep well-formedness and typing conjunct of every diagram-returning operation (constructors, categorical operations, functor/optic application, conversions), also on outputs fed back as inputs by the driver."},
     "C06": {"text": "Every finite-function operation on all tables in the bound against its set-theoretic definition; coequalizer judged by the relation (any numbering); universal map exists iff constant on fibres; the universal property itself is model-checked exhaustively."},
-    "C07": {"text": "Every array primitive of the Vec backend on all small arrays / index arrays / range forms / edge lists in the bound against scalar definitions, contracts where the interface leaves a choice; default-method formulas model-checked against direct definitions. (Executable-reference use of the specification; no temporal content.)"},
+    "C07": {"text": "Every array primitive of the Vec backend on all small arrays / index arrays / range forms / edge lists in the bound against scalar definitions, contracts where the interface leaves a choice; default-method formulas model-checked against direct definitions. (Executable-reference use of the specification; no temporal content.) Connected components are also recorded on merge orders that are hard for union-find (tournaments, paths, stars, up to 70 nodes)."},
     "C08": {"text": "Every segmented-array operation as a list-of-lists function plus the representation invariant; checked constructors accept iff sizes sum to the value length; iterator machine: all scripts of next/len/size_hint calls up to the bound replayed on both iterators and validated step by step."},
     "C09": {"text": "The lax builder as a TLA+ state machine: every reachable state in the bound, quotient from each; the relation accepts any numbering of merged classes, demands label-uniform fibres, rewritten references, cleared pairs, idempotence, and an unchanged diagram on failure; action properties FailAtomic / QuotientClears model-checked; recorded histories interleaving unify/quotient/edits."},
     "C10": {"text": "Round trips are equalities; strictification of lax compose/tensor/identity/symmetry/spider/dagger/singleton results is isomorphic to the strict operation on strictified arguments; definedness of checked and unchecked lax composition; in-place variants equal the pure ones; over all lax/strict diagrams and pairs in the bound."},
     "C11": {"text": "One implementation test per edge of TLC's state graph of the lax builder (every reachable state x every call x every argument in the bound, including duplicate and out-of-range identifiers), all public fields and returned ids compared with the list model; append-only action property; serde JSON field names and round trip; recorded histories of up to 120 calls validated with the state tracked by the specification."},
-    "C12": {"text": "Functors are data: TLC enumerates object maps (lists of length 0, 1, 2) and operation images (all diagrams of the right type in the bound); the library's result must be isomorphic to generator-wise substitution, with type F(A) -> F(B); functor laws; strict trait and lax trait through DynFunctor; model invariant: the transcribed spider decomposition is isomorphic to substitution."},
+    "C12": {"text": "Functors are data: TLC enumerates object maps (lists of length 0, 1, 2) and operation images (all diagrams of the right type in the bound); the library's result must be isomorphic to generator-wise substitution, with type F(A) -> F(B); functor laws; strict trait and lax trait through DynFunctor; model invariant: the transcribed spider decomposition is isomorphic to substitution. The identity-functor calls recorded from the repository's own randomized test suite (they run the general spider decomposition) are validated against 'isomorphic to the argument, same type'."},
     "C13": {"text": "Native lax functor path: refusal iff pending unifications; quotiented result isomorphic to substitution; witness has one segment per input node of length |F(label)| carrying F(label) in order, and pushes the interfaces through the quotient map."},
     "C14": {"text": "Table-driven optics (forward/reverse object maps, residuals, images enumerated by TLC): type of map_arrow and adapt, isomorphism with the generator-wise optic applied by substitution, functoriality; derivative clause: all monogamous acyclic polynomial circuits with <= K operations under the standard lenses: adapted optic monogamous, evaluates to (f(x), J^T dy) as computed by adjoint propagation in the specification; chain rule model-checked on the specification."},
-    "C15": {"text": "All diagrams of the listed shapes: any valid minimal layering is accepted (unvisited = on/downstream of a cycle, strict order along dependencies, depth = longest chain, grouped form); hooks judge converse/adjacency/in-degree/kahn directly; model invariant: the transcribed level-synchronous Kahn ends in a valid minimal layering."},
+    "C15": {"text": "All diagrams of the listed shapes: any valid minimal layering is accepted (unvisited = on/downstream of a cycle, strict order along dependencies, depth = longest chain, grouped form); hooks judge converse/adjacency/in-degree/kahn directly; model invariant: the transcribed level-synchronous Kahn ends in a valid minimal layering. The layer calls recorded from the repository's own layering tests are validated with the same relation."},
     "C16": {"text": "All typed single-writer diagrams in the bound (hence all numberings) and all monogamous circuits with <= 3 operations: result equals the recursive reference interpreter, callback batches contain every hyperedge once with reference inputs, None iff the dependency relation is cyclic; model invariants: layered evaluation = reference, invariance under renumbering."},
     "C17": {"text": "is_acyclic, is_monogamous, in/out degree on all diagrams of the listed shapes, in debug and release profiles; definitions by reachability and counting; a panic never conforms; model invariants: bincount formula <=> definition, node-level Kahn <=> no node reaches itself."},
     "C18": {"text": "All pairs of small hypergraphs with all pairs of tables (natural or not, typed or mistyped): Ok iff morphism, Err names a failing condition; mono iff both injective; convexity of all sub-hypergraph inclusions by brute force over paths; model invariant: the transcribed two-layer search decides the brute-force definition."},
